@@ -96,13 +96,16 @@ def run_case(case):
         if s["regionTag"] in by_tag:
             bad("region-tag-not-unique", s["regionTag"])
         by_tag[s["regionTag"]] = s
-    host_short = api.info["host"].split(".")[0]
+    from google.api import client_pb2
     ver = api.info["version"]
     kinds = ["sync"] + (["async"] if "grpc" in tr else [])
     samples = []
     expected_tags = set()
     for p, s, m in refs.target_methods(req):
         form = calling_form(model, m)
+        host_short = s.options.Extensions[client_pb2.default_host].split(".")[0]
+        if host_short != api.info["host"].split(".")[0]:
+            bump("samples_of_service_on_another_host")
         for kind in kinds:
             tag = f"{host_short}_{ver}_generated_{s.name}_{m.name}_{kind}"
             expected_tags.add(tag)
